@@ -24,6 +24,10 @@ FID = 'SetSpeedTrainSim::solve_step'
 
 def run(ctx):
     trace_handling(ctx)
+    from .common import step_protocol
+    step_protocol(ctx, 'C14-2.power', FID, [
+        ('set_pwr_aux', 'set_cur_pwr_max_out'), ('set_cur_pwr_max_out', 'solve_required_pwr'), ('update_res', 'solve_required_pwr'),
+        ('solve_required_pwr', 'solve_energy_consumption')])
     b = ctx.anchor('C14', FID)
     if b is None:
         return
